@@ -2765,6 +2765,10 @@ def collapse_rests(rest_array):
                 rest_array[i]["duration_div"] = (
                     rest["duration_div"] + rest_array[idx]["duration_div"]
                 )
+                if "duration_quarter" in rest_array.dtype.names:
+                    rest_array[i]["duration_quarter"] = (
+                        rest["duration_quarter"] + rest_array[idx]["duration_quarter"]
+                    )
                 filter_idx.append(idx)
             output_idx.append(i)
     return rest_array[output_idx], filter_idx
